@@ -94,7 +94,9 @@ fn read_len(cigar: &[(char, u64)]) -> u64 {
 /// without CIGAR (a placed read flagged unmapped covers its POS only, the SAM convention), whatever
 /// its read length (which is what the CRAM record and the index use: `end`)
 fn hit_end(x: &RecSpec) -> u64 {
-    if x.cigar.is_empty() { x.start } else { x.end }
+    // a CIGAR that consumes no reference base (`5S`, `2S3I`): RecordBuf::alignment_span is None and
+    // alignment_end is the start as well (x.end = start - 1 is the CRAM record's end)
+    if x.cigar.is_empty() { x.start } else { x.end.max(x.start) }
 }
 
 /// a placed record without bases: reference id and POS, no CIGAR, SEQ `*` (CRAM end = start - 1)
@@ -971,7 +973,9 @@ fn run_qry(c: &Case) -> Obs {
 fn run(c: &Case) -> Obs {
     match c.kind.as_str() {
         "idx" => run_idx(c),
-        "qry" => run_qry(c),
+        // `zq`: as `qry`, on files holding mapped reads whose CIGAR consumes no reference base; the
+        // model side runs cram::fs::index -> Reader::query as one chain (ZeroSpan.index_then_query)
+        "qry" | "zq" => run_qry(c),
         "midx" => c19_multi::run_midx(c),
         "mqry" => c19_multi::run_mqry(c),
         "mqbad" => c19_multi::run_mqbad(c),
@@ -1179,7 +1183,69 @@ pub fn gen_spec_nobases(rng: &mut Rng, i: u64) -> FileSpec {
     spec
 }
 
+/// files holding MAPPED reads whose CIGAR consumes no reference base (soft clips / insertions only,
+/// optionally behind a hard clip): read length > 0, bases present, CRAM end = start - 1 -- the same
+/// arithmetic as a placed record without bases, reached by "any read".  The index floors the end at
+/// the start (span 1 when alone), a region query returns the read exactly at its POS.  Some of them
+/// sit at POS 1 (CRAM end = "no position"), small slices make them often alone on their reference in
+/// a multi-reference slice.
+pub fn gen_spec_zspan(rng: &mut Rng, i: u64) -> FileSpec {
+    // never a placed_file flavour (7k+1), mixed files (placed reads flagged unmapped) every fifth
+    let mut spec = gen_spec(rng, i * 7 + 1);
+    let zc = |rng: &mut Rng| -> Vec<(char, u64)> {
+        let mut c = Vec::new();
+        if rng.chance(1, 5) {
+            c.push(('H', rng.range(1, 3)));
+        }
+        match rng.below(4) {
+            0 => c.push(('S', rng.range(1, 6))),
+            1 => c.push(('I', rng.range(1, 4))),
+            2 => {
+                c.push(('S', rng.range(1, 3)));
+                c.push(('I', rng.range(1, 3)));
+            }
+            _ => {
+                c.push(('S', rng.range(1, 3)));
+                c.push(('I', rng.range(1, 2)));
+                c.push(('S', rng.range(1, 2)));
+            }
+        }
+        c
+    };
+    let p = if rng.chance(1, 2) { 2 } else { 3 };
+    let mut any = false;
+    for r in spec.recs.iter_mut() {
+        if r.rid.is_some() && !r.cigar.is_empty() && rng.chance(1, p) {
+            r.cigar = zc(rng);
+            r.read_len = read_len(&r.cigar);
+            r.end = r.start - 1;
+            any = true;
+        }
+    }
+    for rid in 0..spec.ref_lens.len() {
+        if rng.chance(1, 3) || (!any && rid == 0) {
+            let at = spec.recs.iter().position(|r| r.rid.is_none() || r.rid >= Some(rid)).unwrap_or(spec.recs.len());
+            let start = if rng.chance(1, 2) { 1 } else { spec.recs.get(at).filter(|r| r.rid == Some(rid)).map(|r| r.start).unwrap_or(1) };
+            let cigar = zc(rng);
+            spec.recs.insert(at, RecSpec { rid: Some(rid), start, end: start - 1, has_seq: true, read_len: read_len(&cigar), cigar });
+        }
+    }
+    let n = spec.recs.len() as u64;
+    spec.per_slice = match rng.below(6) {
+        0 => 1,
+        1 | 2 => 2,
+        3 => 3,
+        4 => rng.range(1, n.max(1)),
+        _ => 10_000,
+    } as usize;
+    spec
+}
+
 fn push_file(rng: &mut Rng, w: &mut CaseWriter, spec: &FileSpec, nreg: usize) {
+    push_file_as(rng, w, spec, nreg, "qry")
+}
+
+fn push_file_as(rng: &mut Rng, w: &mut CaseWriter, spec: &FileSpec, nreg: usize, qkind: &str) {
     let repo = repository(spec);
     let (p0, layout) = match write_cram(spec, &repo).and_then(|b| walk(&b)) {
         Ok((p0, conts, _)) => (p0.to_string(), fmt_layout(&conts)),
@@ -1202,7 +1268,7 @@ fn push_file(rng: &mut Rng, w: &mut CaseWriter, spec: &FileSpec, nreg: usize) {
     let mut a = base;
     a.push(gen_regions(rng, spec, nreg));
     a.push(rng.below(3).to_string());
-    w.push("qry", a);
+    w.push(qkind, a);
 }
 
 fn generate(rng: &mut Rng, tier: &str, w: &mut CaseWriter) {
@@ -1220,6 +1286,11 @@ fn generate(rng: &mut Rng, tier: &str, w: &mut CaseWriter) {
     c19_multi::generate_multi(rng, thorough, w);
     c19_async::generate_async(rng, thorough, w);
     c19_gz::generate_gz(rng, thorough, w);
+    // last, so that the cases of the other kinds are the ones of the earlier rounds
+    for i in 0..(if thorough { 3000 } else { 150 }) {
+        let spec = gen_spec_zspan(rng, i);
+        push_file_as(rng, w, &spec, 12, "zq");
+    }
 }
 
 fn main() {
